@@ -281,6 +281,14 @@ func (r *runReport) finish() int {
 			}
 		}
 		base[r.prop+"#vc"] = vcs
+		var locs []string
+		for _, fr := range r.reports {
+			if fr.Locals != "" && fr.Err == "" {
+				locs = append(locs, fr.Key+"\t"+fr.Locals)
+			}
+		}
+		sort.Strings(locs)
+		base[r.prop+"#locals"] = locs
 		b, _ := json.MarshalIndent(base, "", " ")
 		os.MkdirAll(filepath.Dir(r.baselineFile), 0o755)
 		os.WriteFile(r.baselineFile, b, 0o644)
